@@ -49,7 +49,12 @@ def _generate_model_code(
     source: list[str] = []
     # Model components
     variables = model.get_initial_conditions()
-    parameters = model.get_parameter_values()
+    # Includes parameters defined by initial assignments; copy, as free parameters are removed
+    parameters = dict(model.get_parameter_values())
+    if (cache := model._cache) is not None:  # noqa: SLF001
+        parameters = {
+            k: cache.all_parameter_values[k] for k in model.get_parameter_names()
+        }
 
     if imports is not None:
         source.extend(imports)
@@ -77,9 +82,7 @@ def _generate_model_code(
     # every name is assigned before it is used
     all_derived = model.get_raw_derived()
     all_reactions = model.get_raw_reactions()
-    eval_order: list[str] = (
-        [] if (cache := model._cache) is None else cache.order  # noqa: SLF001
-    )
+    eval_order: list[str] = [] if cache is None else cache.order
     for name in eval_order:
         if (derived := all_derived.get(name)) is not None:
             expr = custom_fns.get(name)
